@@ -516,6 +516,8 @@ class Discharger:
             # staged portfolio: short budgets first (most obligations take milliseconds), full budget afterwards
             T = self.timeout_s
             schedule = [("z3new", max(2, T // 5)), ("cvc5", max(3, T // 2)), ("z3new", T), ("cvc5", T), ("z3old", T)]
+            if getattr(self, "single_stage", False):
+                schedule = [("z3new", T), ("cvc5", T)]
             schedule = [(w, t) for w, t in schedule if w in self.solvers]
             for which, budget in schedule:
                 res, dt = self.run_solver(which, path, budget)
